@@ -221,7 +221,12 @@ func runCase(c Case, st *ev.Stats) error {
 			return err
 		}
 	case "BindAny":
-		if _, err := ampipe.BindAny(src, px); err != nil {
+		// half of the cases pipe into the real machine (the "unchanged set" shortcut only trusts a local machine)
+		var anyTarget am.Api = px
+		if len(c.Delays)%2 == 0 {
+			anyTarget = tgt
+		}
+		if _, err := ampipe.BindAny(src, anyTarget); err != nil {
 			return err
 		}
 	case "Flat":
